@@ -722,8 +722,12 @@ fn plan_long_terms(rng: &mut Rng) -> PlanResult {
             b.bytes(2, w.as_bytes());
         }
         if rng.chance(2, 3) {
-            // json text tokens: those longer than JSON_MAX_TOKEN_LEN (65 526) are dropped
-            let w = gen(rng, usize::MAX);
+            // json text tokens: those longer than JSON_MAX_TOKEN_LEN (65 526) are dropped; the
+            // lengths between that limit and MAX_TOKEN_LEN belong to the `jsonlong` stream
+            let mut w = gen(rng, usize::MAX);
+            if w.len() > JSON_MAX_TOKEN_LEN && w.len() <= MAX_TOKEN_LEN {
+                w = gen(rng, JSON_MAX_TOKEN_LEN);
+            }
             let w2 = gen(rng, 300);
             let key = rng.pick(&["a", "a.b", "k"]).to_string();
             b.json(3, &J::Obj(vec![(key, J::Arr(vec![J::Str(w), J::Str(w2)]))]));
